@@ -97,6 +97,58 @@ CHECKS.update({
         design="4 C15"),
 })
 
+CHECKS.update({
+    "C01": dict(
+        text="(1) AlpenglowAbs.tla - the voting rules of Votor and the pool's threshold conditions over the monotone set of "
+             "sent votes, all Byzantine votes present from the start - is model-checked exhaustively (N=4, stakes 2,2,2,1, "
+             "14% Byzantine, fork-shaped block tree, 2-3 slots, W=4 and W=2): Agreement, SingleChain, NoFinalAndSkip and the "
+             "supporting lemmas hold in every reachable state. (2) The real Votor is replayed against Votor.tla. (3) N real "
+             "Alpenglow nodes run on in-memory networks under virtual time with a seeded adversarial scheduler (loss, "
+             "duplication, reordering, chaotic prefix), crashes and equivocating Byzantine validators; every broadcast vote, "
+             "held certificate and finalization report is recorded and TLC validates the execution against AlpenglowAbs "
+             "(every correct vote must be an enabled abstract action; certificates and finalizations must be justified; "
+             "agreement / one chain / no final+skip evaluated after every event).",
+        note="bounded N and slots, no inductive proof; ideal signatures; Byzantine leaders are silent in the simulator "
+             "(equivocating leaders only in the abstract model); 'finalized and skip-certified' is read as DIRECT "
+             "finalization (TLC shows an indirectly finalized ancestor's slot can legitimately carry a skip certificate); " + TB,
+        technique="TLA+ abstract protocol spec + TLC exhaustive BFS; code->spec trace validation of simulated multi-node executions; Votor replay",
+        design="4 C01"),
+    "C02": dict(
+        text="Full-node executions (chaotic prefix with loss/reordering, then all delays <= 100 ms; < 20% crashed and < 20% "
+             "Byzantine silent or noisy; faulty leaders at rotating positions) are validated event by event against "
+             "AlpenglowAbs (Trace_Progress.tla) and, at the end of the trace, TLC evaluates the progress goal on the windows "
+             "that started after stabilisation: every slot of a correct live leader's window finalized at every correct live "
+             "node and not skip-certified, by a fast-finalization certificate when >= 80% of the stake is responsive; windows of "
+             "crashed / silent leaders skip-certified; highest finalized slot keeps up.",
+        note="virtual time with the real timeout constants; the adequacy of the constants on a real network is not decided; "
+             "sampled schedules (seeds), not all of them; a vacuity guard requires judged windows",
+        technique="code->spec trace validation with TLC (Trace_Progress.tla) of simulated multi-node executions; goal as end-of-trace invariant",
+        design="4 C02"),
+    "C11": dict(
+        text="Shred.tla: (i) the padding/shard arithmetic of reed_solomon.rs transcribed over integers and checked by TLC for every "
+             "coded length 0..MAX+64 (no underflow, 32 even shards <= 1024 bytes, unpad(pad(L)) = L, limit exact), (ii) a symbolic "
+             "byte-level pad/chunk/unpad round trip, (iii) the receiver (deshred) as a case structure over held shapes (d data, c "
+             "coding) per shredder variant with all C11 predicates checked on every enumerated case. Every case is replayed into "
+             "the four real shredders with seeded payload bytes and index subsets: verdicts, shard sizes, reconstructed slice, "
+             "byte-identical regenerated shreds accepted by ValidatedShred::try_new, untouched array on error.",
+        note="case structure exhaustive, payload bytes and index subsets sampled (not all C(64,32)); GF(2^16) arithmetic in "
+             "reed-solomon-simd trusted; " + TB,
+        technique="TLA+ spec (integer transcription + receiver model) + TLC case enumeration + spec->code case replay",
+        design="4 C11"),
+    "C17": dict(
+        text="Sampler.tla states the per-draw guarantees as integer predicates (size, membership, zero-weight never drawn, >= "
+             "floor(stake*k/Total) seats under FA1/FA2, <= ceil(max_samples) seats under decaying acceptance, determinism, "
+             "constructibility). TLC checks them for consistency/satisfiability on every validator set with N<=4, stakes 0..8, "
+             "k<=8 and emits each case; every shipped strategy (as built by Rotor::new/new_fa1, Turbine, ...) is constructed "
+             "twice and drawn for several seeds per case and compared; draws over generated distributions (equal, heavy-tailed, "
+             "dominant, Total/k-boundary, lamport scale; N up to 2000) are recorded and each event is judged by TLC "
+             "(Trace_Sampler.tla).",
+        note="floor guarantee decided by TLC only for stake*k < 2^31; random sources sampled (seeds); five constructor/rejection "
+             "panics are recorded as known findings (C17-*), three were fixed; statistical quality not judged",
+        technique="declarative TLA+ predicates; TLC small-case enumeration + spec->code case replay; code->spec trace validation of recorded draws",
+        design="4 C17"),
+})
+
 NOT_YET = {
     "C01": "check not built yet in this round (abstract protocol model + simulator planned, DESIGN 4 C01)",
     "C02": "check not built yet in this round (DESIGN 4 C02)",
